@@ -9,6 +9,7 @@ import (
 	"fmt"
 	"math"
 	"sort"
+	"strings"
 	"time"
 
 	"verifharness/gal"
@@ -119,6 +120,10 @@ type run struct {
 	// accumulated per image
 	d23   []string
 	fails []string
+	// delivered.go
+	fb         map[fianoUEFI.Firmware]pkgbytes.Range // what the walker (fallback on) reports per node
+	srcCases   [3]int
+	srcSingles int
 }
 
 func (r *run) physOf(off uint64) uint64 { return off + fourGiB - r.size }
@@ -471,7 +476,16 @@ func (r *run) dataRanges(d *types.Data, bi *biosimage.BIOSImage) ([]pkgbytes.Ran
 		if !sameRanges(ref.Ranges, kept) || err != nil || !sameRanges([]pkgbytes.Range(again), own) {
 			return nil, fmt.Sprintf("after ResolvedRanges() the reference holds %v (it held %v); a second ResolvedRanges() = %v err=%v, the first = %v", ref.Ranges, kept, again, err, own)
 		}
+		// the bytes it delivers are the image bytes at the positions it names (delivered.go)
+		if why := deliveredWhy(r.ctx, r.im.name, r.im.data, ref); why != "" {
+			return own, "DELIVERED BYTES: " + why
+		}
 		out = append(out, own...)
+	}
+	if len(d.References) > 1 {
+		if why := dataDeliveredWhy(r.im.data, d, bi); why != "" {
+			return out, "DELIVERED BYTES: " + why
+		}
 	}
 	return out, ""
 }
@@ -479,11 +493,21 @@ func (r *run) dataRanges(d *types.Data, bi *biosimage.BIOSImage) ([]pkgbytes.Ran
 func (r *run) checkSelector(what, site string, input map[string]interface{}, matching []*gnode, d *types.Data, err error, bi *biosimage.BIOSImage, emptyIsErr bool) {
 	ctx := r.ctx
 	input["image"] = r.im.name
+	switch {
+	case strings.HasPrefix(what, "UEFIGUIDFirst") && input["guids"] == nil:
+		r.sourceCase(1, what, input, matching, d, err)
+	case strings.HasPrefix(what, "UEFIFiles"):
+		r.sourceCase(2, what, input, matching, d, err)
+	}
 	exp, unknown, d23 := r.expectedFB(matching)
 	if unknown || (emptyIsErr && len(matching) == 0) {
 		// some matching object cannot be located: the data source must not invent a place
 		if err == nil && d != nil && len(d.References) > 0 {
-			got, _ := r.dataRanges(d, bi)
+			got, why := r.dataRanges(d, bi)
+			if strings.HasPrefix(why, "DELIVERED BYTES") {
+				ctx.OracleFail(-1, what+": "+why, site+" -> "+siteRawBytes, input)
+				return
+			}
 			if !sameRanges(normalise(got), normalise(exp)) {
 				ctx.OracleFail(-1, what+": objects with unknown location were given ranges: "+fmt.Sprint(got), site, input)
 				return
@@ -503,6 +527,11 @@ func (r *run) checkSelector(what, site string, input map[string]interface{}, mat
 		return
 	}
 	msg := fmt.Sprintf("%s: resolved ranges %s are not the bytes of the selected objects %s %s", what, fmtRanges(normalise(got)), fmtRanges(normalise(exp)), why)
+	if strings.HasPrefix(why, "DELIVERED BYTES") {
+		// the ranges may be right or not: what is delivered is not what they name
+		ctx.OracleFail(-1, what+": "+why, site+" -> "+siteRawBytes, input)
+		return
+	}
 	if d23 {
 		ctx.OracleFailKnown(-1, findD23, msg, site, input)
 		r.d23 = append(r.d23, msg)
@@ -802,7 +831,7 @@ func (r *run) selectors(reported []visited) {
 			}
 		}
 		// VolumeOf(MemRanges{phys})
-		st, _ := r.newState()
+		st, volBI := r.newState()
 		phys := pkgbytes.Range{Offset: r.physOf(x.rg.Offset), Length: x.rg.Length}
 		var d *types.Data
 		var derr error
@@ -811,6 +840,12 @@ func (r *run) selectors(reported []visited) {
 		if !p && derr == nil && d != nil {
 			for i := range d.References {
 				got = append(got, d.References[i].Ranges...)
+			}
+			// whatever it answers with, the bytes delivered are the bytes of those ranges
+			if why := dataDeliveredWhy(r.im.data, d, volBI); why != "" {
+				ctx.OracleFail(-1, fmt.Sprintf("VolumeOf(MemRanges{%#x+%#x}): %s", phys.Offset, phys.Length, why), "pkg/bootflow/datasources/volume_of.go -> "+siteRawBytes, in)
+			} else {
+				ctx.OracleOK()
 			}
 		}
 		lit := fmt.Sprintf("CVolumeOf %s %s %s %s", gal.U(r.size), nodesFor(x.rg), rangeLit(x.rg.Offset, x.rg.Length), obsRanges(got, derr, p))
@@ -1147,8 +1182,41 @@ func (r *run) pcr0data(st *types.State, bi *biosimage.BIOSImage, acc *intelbiosi
 				ctx.OracleFail(-1, fmt.Sprintf("PCR0_DATA %s: bytes at %#x+%#x are not the parsed field (%d bytes)", label[i], g.Offset, g.Length, len(want[i])), "pkg/bootflow/steps/intelsteps/measure_pcr0_data.go", in)
 				continue
 			}
+			// and what is delivered for the piece is the parsed field, byte by byte
+			cp := *ref
+			cp.Ranges = append(pkgbytes.Ranges(nil), ref.Ranges...)
+			var delivered []byte
+			if p, msg := gal.Recover(func() { delivered = cp.RawBytes() }); p || !bytes.Equal(delivered, want[i]) {
+				ctx.OracleFail(-1, fmt.Sprintf("PCR0_DATA %s: RawBytes() of the reference %v: %s %s", label[i], hexRanges(ref.Ranges), diffBytes(delivered, want[i]), msg), "pkg/bootflow/steps/intelsteps/measure_pcr0_data.go -> "+siteRawBytes, in)
+				continue
+			}
 			ctx.OracleOK()
 			ctx.Count("oracle-ok:PCR0_DATA " + label[i])
+		}
+		// the whole PCR0_DATA: the pieces in order (the first one comes from the TXT registers)
+		{
+			in := map[string]interface{}{"image": r.im.name, "alg": uint16(ext.HashAlgo)}
+			cp := &types.Data{Converter: d.Converter}
+			for i := range d.References {
+				ref := d.References[i]
+				ref.Ranges = append(pkgbytes.Ranges(nil), ref.Ranges...)
+				cp.References = append(cp.References, ref)
+			}
+			var whole, first []byte
+			p, msg := gal.Recover(func() {
+				first = cp.References[0].RawBytes()
+				whole = cp.RawBytes()
+			})
+			wantWhole := append([]byte{}, first...)
+			for i := 1; i < 6; i++ {
+				wantWhole = append(wantWhole, want[i]...)
+			}
+			if p || !bytes.Equal(whole, wantWhole) {
+				ctx.OracleFail(-1, fmt.Sprintf("PCR0_DATA: Data.RawBytes() is not the six pieces in order: %s %s", diffBytes(whole, wantWhole), msg), "pkg/bootflow/steps/intelsteps/measure_pcr0_data.go -> "+siteRawBytes, in)
+			} else {
+				ctx.OracleOK()
+				ctx.Count("oracle-ok:PCR0_DATA whole")
+			}
 		}
 	}
 	if n == 0 {
